@@ -117,7 +117,8 @@ impl Conn {
                     let (base, rate) = if client { (cb, cr) } else { (sb, sr) };
                     let elapsed = k * self.gap_ms as u64;
                     // unique per connection and direction: low bits carry the packet counter
-                    let v = base.wrapping_add(((elapsed * rate as u64) / 1000) as u32);
+                    // + k: strictly increasing per connection and direction, so that TSvals are unique keys of the clock table
+                    let v = base.wrapping_add(((elapsed * rate as u64) / 1000) as u32).wrapping_add(k as u32);
                     (encode_opts(&[OptItem::Nop, OptItem::Nop, OptItem::Ts(v, echo)]), Some(v))
                 }
             }
